@@ -278,7 +278,12 @@ func (c *checker) viol(sig string, n *node, f string, a ...any) {
 }
 
 // eval drives one tree as a state machine: Value() at position i, Next() to position i+1.
-func (c *checker) eval(n *node) {
+func (c *checker) eval(n *node) { c.evalTree(n, true) }
+
+// evalLight: the state-machine drain and the source check, ForEach only without an injected error.
+func (c *checker) evalLight(n *node) { c.evalTree(n, false) }
+
+func (c *checker) evalTree(n *node, everyErrorPosition bool) {
 	c.r.Evaluations++
 	e := &env{}
 	s, ref := n.build(e)
@@ -306,7 +311,11 @@ func (c *checker) eval(n *node) {
 		return
 	}
 	// ForEach: visits the list in order and stops at the first error, at every position
-	for p := 0; p <= len(ref); p++ {
+	first := 0
+	if !everyErrorPosition {
+		first = len(ref)
+	}
+	for p := first; p <= len(ref); p++ {
 		e2 := &env{}
 		s2, _ := n.build(e2)
 		var seen []int
@@ -344,9 +353,11 @@ type caseDef struct {
 func mkCases(tier string) []caseDef {
 	al, depth := fullAlphabet(), 3
 	if tier == "thorough" {
-		return append(mkCasesFor(fullAlphabet(), 3, "full alphabet"), mkCasesFor(smallAlphabet(), 4, "reduced alphabet")...)
+		cs := append(mkCasesFor(fullAlphabet(), 3, "full alphabet"), mkCasesFor(smallAlphabet(), 4, "reduced alphabet")...)
+		cs = append(cs, deeperCases(fullAlphabet(), 3, "full alphabet")...)
+		return append(cs, deeperCases(smallAlphabet(), 4, "reduced alphabet")...)
 	}
-	return mkCasesFor(al, depth, "full alphabet")
+	return append(mkCasesFor(al, depth, "full alphabet"), deeperCases(al, 3, "full alphabet")...)
 }
 
 func mkCasesFor(al alphabet, depth int, tag string) []caseDef {
@@ -397,6 +408,45 @@ func mkCasesFor(al alphabet, depth int, tag string) []caseDef {
 	return cs
 }
 
+// deeperCases: every tree of depth `depth` becomes the operand of every unary / Join root once more, and of Plus
+// with a leaf on either side (one more level, without squaring the number of trees).
+func deeperCases(al alphabet, depth int, tag string) []caseDef {
+	var cs []caseDef
+	const parts = 64
+	for p := 0; p < parts; p++ {
+		p := p
+		cs = append(cs, caseDef{fmt.Sprintf("%s depth %d: every root over operand #i of depth <= %d with i mod %d = %d", tag, depth+1, depth, parts, p), func(c *checker, deadline time.Time) {
+			sub := al.level(depth)
+			for i := p; i < len(sub); i += parts {
+				a := sub[i]
+				for _, u := range al.unary {
+					n := u
+					n.a = a
+					c.evalLight(&n)
+				}
+				for _, j := range al.joins {
+					c.evalLight(&node{kind: "join", i: j, a: a})
+				}
+				for li, l := range al.leaves {
+					if li == 0 || li == 1 || li == 5 || len(al.leaves) <= 4 { // nil, [1], [1 2]
+						c.evalLight(&node{kind: "plus", a: a, b: l})
+						c.evalLight(&node{kind: "plus", a: l, b: a})
+					}
+				}
+				if len(c.r.Viols) > 0 {
+					return
+				}
+				if i%256 == p%256 && time.Now().After(deadline) {
+					c.r.Exhaustive = false
+					c.r.Note = "time budget reached"
+					return
+				}
+			}
+		}})
+	}
+	return cs
+}
+
 func main() {
 	cache := map[string][]caseDef{}
 	get := func(tier string) []caseDef {
@@ -407,7 +457,7 @@ func main() {
 	}
 	drv.Main(drv.Property{
 		ID: "C14", Level: "model_checking", PanicIsViolation: true,
-		Rule:        "every expression tree of depth <= 3 over the alphabet: leaves FromSlice(xs) for all xs over {1,2,3} of length <= 2 plus [1 2 3], [3 2 1], [1 3 2 4] and nil, From(1..3); TakeWhile/DropWhile/Filter x 5 predicates; Map x 3 functions; Plus; Join x 6 flat-map functions (nil, From(x), [x,x+1], nil-if-odd, [1..x], predicate-terminated TakeWhile for odd x / nil for even x); thorough adds depth 4 over a reduced alphabet (4 leaves, 7 unary, 3 joins). Each tree is rebuilt from fresh source slices (with sentinel-filled spare capacity) for every evaluation and driven as a state machine: at position i Value()==ref[i] and Next()==(i+1<len(ref)); nil iff the list is empty; ForEach with an error injected at every visit position; source slices and their spare capacity byte-identical afterwards. states = (tree, position) pairs, transitions = Next / visit steps; non-trivial = trees whose list has at least 2 elements",
+		Rule:        "every expression tree of depth <= 3 over the alphabet: leaves FromSlice(xs) for all xs over {1,2,3} of length <= 2 plus [1 2 3], [3 2 1], [1 3 2 4] and nil, From(1..3); TakeWhile/DropWhile/Filter x 5 predicates; Map x 3 functions; Plus; Join x 6 flat-map functions (nil, From(x), [x,x+1], nil-if-odd, [1..x], predicate-terminated TakeWhile for odd x / nil for even x); plus depth 4 in the form: every tree of depth <= 3 as the operand of every unary / Join root and of Plus with one of three leaves (nil, [1], [1 2]) on either side, checked by the drain and the source comparison without the error injection (the shape Plus(DropWhile(Plus(a,b),p),c) of seeded change C14-r2m1 lives there); thorough adds full depth 4 over a reduced alphabet (4 leaves, 7 unary, 3 joins) and its depth-5 extension of the same form. Each tree is rebuilt from fresh source slices (with sentinel-filled spare capacity) for every evaluation and driven as a state machine: at position i Value()==ref[i] and Next()==(i+1<len(ref)); nil iff the list is empty; ForEach with an error injected at every visit position; source slices and their spare capacity byte-identical afterwards. states = (tree, position) pairs, transitions = Next / visit steps; non-trivial = trees whose list has at least 2 elements",
 		Assumptions: []string{"iterators are not shared between two trees; Next() is not called again after it returned false", "element values and functions outside the alphabet are not covered; random deeper trees are not sampled"},
 		Cases: func(tier string) (int, func(int) string) {
 			cs := get(tier)
